@@ -12,5 +12,8 @@ rsync -a --exclude .git --exclude client/docs /repo/ "$scratch/"
 if [ -n "$runtests" ]; then
   ( cd "$scratch" && go test -vet=off -count=1 ./... 2>&1 | grep -E '^(FAIL|---)' | head -5 )
 fi
-/verif/bin/pverif check "$ids" --repo "$scratch" --verif "$scratch/.verif" 2>&1 | grep -E '^(VIOLATED|UNDECIDED|KNOWN-FINDING|VIOLATION|SUMMARY)' | sed "s#$scratch/##g" | cut -c1-${MUTEST_WIDTH:-420}
+mkdir -p "$scratch/.verif"; cp /verif/known_findings.json "$scratch/.verif/"
+/verif/bin/pverif check "$ids" --repo "$scratch" --verif "$scratch/.verif" > "$scratch/.out" 2>&1; rc=$?
+[ $rc -ge 2 ] && { echo "VIOLATED CHECKER-ERROR rc=$rc: $(head -2 "$scratch/.out")"; }
+cat "$scratch/.out" | grep -E '^(VIOLATED|UNDECIDED|KNOWN-FINDING|VIOLATION|SUMMARY)' | sed "s#$scratch/##g" | cut -c1-${MUTEST_WIDTH:-420}
 exit 0
